@@ -24,7 +24,9 @@ PLAN={  # seeded change -> checks to try (own property first)
  'r8-A1':['C01','C10','C06'], 'r8-A2':['C03'], 'r8-A3':['C04'], 'r8-A4':['C09','C02'],
  'r8-B1':['C05','C08'], 'r8-B2':['C06','C16'], 'r8-B3':['C08'], 'r8-B4':['C10','C06'],
  'r8-C1':['C15','C06'], 'r8-C2':['C16'], 'r8-C3':['C02','C05'], 'r8-C4':['C17'],
+ 'r9-D1':['C06'], 'r9-D2':['C12','C01'], 'r9-D3':['C14'], 'r9-E1':['C11'], 'r9-E2':['C13'], 'r9-E3':['C07','C08'],
 }
+R9={'D1':'C06','D2':'C12','D3':'C14','E1':'C11','E2':'C13','E3':'C07'}
 R8={'A1':'C01','A2':'C03','A3':'C04','A4':'C09','B1':'C05','B2':'C06','B3':'C08','B4':'C10','C1':'C15','C2':'C16','C3':'C02','C4':'C17'}
 R7={'A1':'C10','A2':'C02','A3':'C15','A4':'C05','B1':'C12','B2':'C11','B3':'C14','B4':'C17'}
 R6={'A1':'C03','A2':'C04','A3':'C13','A4':'C17','B1':'C09','B2':'C14','B3':'C15','B4':'C06','C1':'C01','C2':'C07','C3':'C08','C4':'C16'}
@@ -46,6 +48,7 @@ for name in names:
     if name.startswith('r6-'): prop=R6.get(prop,prop)
     if name.startswith('r7-'): prop=R7.get(prop,prop)
     if name.startswith('r8-'): prop=R8.get(prop,prop)
+    if name.startswith('r9-'): prop=R9.get(prop,prop)
     checks=PLAN.get(name,[prop] if re.match(r'^C\d\d$',prop) else [])
     meta_path=os.path.join(d,'meta.json')
     meta=json.load(open(meta_path)) if os.path.exists(meta_path) else {}
